@@ -1,6 +1,8 @@
 import CifModel.Lemmas.StoreIter
 import CifModel.Lemmas.StoreRefineQ
 import CifModel.Lemmas.StoreIterSpec
+import CifModel.Lemmas.StoreSpecIter
+import CifModel.Props.C04
 /-
   Property C06 — packet iterators deliver each packet once; close commits, abort reverts.
 
@@ -267,5 +269,104 @@ theorem C06_documented_codes (a : AState) (ai : AIter) (x : ALoop) (hx : a.findL
     rw [this]
   · intro hc p; unfold specItUpdate; simp [hc]
   · intro hc; unfold specItRemove; simp [hc]
+
+-- ---- iterators inside whole histories (C04_refines_hist covers the six iterator calls; here: what an iterator delivers) ------------------
+
+/-- A granted cif_loop_get_packets inside a history (world satisfying WOk, op in contract): in the documented model (`absW`), the new
+    iterator — index `w.its.length` of the iterator table — has the WHOLE packet list of its loop pending, each packet as (item name,
+    value) pairs in the loop's order: "the loop's packets in the spec state at its creation". -/
+theorem C06_pending_at_open (w : World) (h : WOk w) (l : Nat) (hin : inContract w (.itOpen l) = true)
+    (hok : (step w (.itOpen l)).2.rc = some CIF_OK) :
+    ∃ e st x, (absW w).liveL l = some (e, st) ∧ st.findLoop e.h.cid e.h.loopNum = some x ∧
+      (absW (step w (.itOpen l)).1).pending w.its.length = some (x.packets.map (fun p => (x.items.map (·.1)).zip p)) :=
+  pending_open w h l hin hok
+
+/-- cif_pktitr_next_packet inside a history, against what is pending for the iterator in the documented model: the call is not
+    executed (dead handle), or nothing is pending and it returns CIF_FINISHED, or it returns CIF_OK with the FIRST pending packet and
+    the rest stays pending.  So CIF_FINISHED is returned exactly when every packet has been delivered. -/
+theorem C06_next_in_history (w : World) (h : WOk w) (i : Nat) (P : List (List (Str × V))) (hp : (absW w).pending i = some P) :
+    ((step w (.itNext i)).2.rc = none ∧ (absW (step w (.itNext i)).1).pending i = some P) ∨
+    (P = [] ∧ (step w (.itNext i)).2.rc = some CIF_FINISHED ∧ (absW (step w (.itNext i)).1).pending i = some []) ∨
+    (∃ p ps, P = p :: ps ∧ (step w (.itNext i)).2.rc = some CIF_OK ∧ (step w (.itNext i)).2.out = .packet p ∧
+      (absW (step w (.itNext i)).1).pending i = some ps) :=
+  pending_next w h i P hp
+
+/-- No other op of an in-contract history changes what is pending for an open iterator: not a call on another CIF, not a call of
+    another iterator, not a refused second cif_loop_get_packets on the iterator's own CIF (everything else on that CIF is out of
+    contract), and not the iterator's own update_packet / remove_packet, which work on the packet BEHIND its position. -/
+theorem C06_pending_kept (w : World) (op : Op) (h : WOk w) (hin : inContract w op = true) (i : Nat) (P : List (List (Str × V)))
+    (hp : (absW w).pending i = some P) (hop : op.isNextOf i = false) (hend : op.endsIter i = false) :
+    (absW (step w op).1).pending i = some P := by
+  by_cases hidx : op.iterIdx = some i
+  · cases op with
+    | itNext j => simp only [Op.iterIdx, Option.some.injEq] at hidx; simp [Op.isNextOf, hidx] at hop
+    | itUpd j pkt =>
+      simp only [Op.iterIdx, Option.some.injEq] at hidx; subst hidx
+      exact pending_upd w h j pkt hin P hp
+    | itRem j =>
+      simp only [Op.iterIdx, Option.some.injEq] at hidx; subst hidx
+      exact pending_rem w h j P hp
+    | itClose j => simp only [Op.iterIdx, Option.some.injEq] at hidx; simp [Op.endsIter, hidx] at hend
+    | itAbort j => simp only [Op.iterIdx, Option.some.injEq] at hidx; simp [Op.endsIter, hidx] at hend
+    | _ => simp [Op.iterIdx] at hidx
+  · exact pending_other w op h hin i P hp hidx
+
+/-- **Each packet once, in order, in ANY in-contract history.**  From a world satisfying WOk in which `P` is pending for iterator `i`
+    (after a granted get_packets: all packets of the loop, `C06_pending_at_open`), over any history that keeps to the contract and
+    does not close or abort `i`: the packets the next_packet calls on `i` deliver (`deliveredBy`: the results with CIF_OK and a
+    packet, in history order) are a prefix of `P`, and the rest of `P` is what is pending afterwards — whatever else the history does
+    in between (updates / removals through `i`, calls on other CIFs, other iterators' sessions, refused get_packets). -/
+theorem C06_delivers_in_history (ops : List Op) (w : World) (h : WOk w) (hc : inContractHist w ops = true)
+    (i : Nat) (P : List (List (Str × V))) (hp : (absW w).pending i = some P) (hno : ops.all (fun op => !op.endsIter i) = true) :
+    ∃ rest, P = deliveredBy i ops (run w ops).2 ++ rest ∧ (absW (run w ops).1).pending i = some rest :=
+  delivered_prefix C04_wok_step ops w h hc i P hp hno
+
+/-- … from the creation of the iterator on: in a history `get_packets(l) :: ops` that keeps to the contract, the iterator granted
+    (CIF_OK) and not closed or aborted within `ops`, what it delivers over `ops` is a prefix of THE LOOP'S PACKETS IN THE DOCUMENTED
+    MODEL AT ITS CREATION (`x.packets` of the loop the handle names in `absW w`), each packet once, in order; and if a further
+    next_packet then returns CIF_FINISHED, it has delivered ALL of them. -/
+theorem C06_session_in_history (w : World) (h : WOk w) (l : Nat) (ops : List Op)
+    (hc : inContractHist w (.itOpen l :: ops) = true) (hok : (step w (.itOpen l)).2.rc = some CIF_OK)
+    (hno : ops.all (fun op => !op.endsIter w.its.length) = true) :
+    ∃ e st x rest, (absW w).liveL l = some (e, st) ∧ st.findLoop e.h.cid e.h.loopNum = some x ∧
+      x.packets.map (fun p => (x.items.map (·.1)).zip p) = deliveredBy w.its.length ops (run (step w (.itOpen l)).1 ops).2 ++ rest ∧
+      ((step (run (step w (.itOpen l)).1 ops).1 (.itNext w.its.length)).2.rc = some CIF_FINISHED → rest = []) := by
+  have hc' : (inContract w (.itOpen l) && inContractHist (step w (.itOpen l)).1 ops) = true := hc
+  simp only [Bool.and_eq_true] at hc'
+  obtain ⟨e, st, x, h1, h2, h3⟩ := pending_open w h l hc'.1 hok
+  have hw1 := C04_wok_step w (.itOpen l) h hc'.1
+  obtain ⟨rest, r1, r2⟩ := delivered_prefix C04_wok_step ops _ hw1 hc'.2 w.its.length _ h3 hno
+  refine ⟨e, st, x, rest, h1, h2, r1, ?_⟩
+  intro hfin
+  have hw2 := C04_wok_hist ops _ hw1 hc'.2
+  rcases pending_next _ hw2 w.its.length rest r2 with ⟨r0, _⟩ | ⟨pe, _, _⟩ | ⟨p, ps, _, r0, _, _⟩
+  · rw [r0] at hfin; cases hfin
+  · exact pe
+  · rw [r0] at hfin; exact absurd hfin (by decide)
+
+/-- … and with NO restriction on the history: over ANY history that keeps to the contract, from a world satisfying WOk in which `P` is
+    pending for iterator `i`, the packets the next_packet calls on `i` deliver are a prefix of `P` — each once, in order; a close or
+    abort of `i` inside the history ends the deliveries (afterwards calls on `i` are not executed: a dead entry of the iterator table
+    stays dead, `step_dead`). -/
+theorem C06_delivers_in_any_history (ops : List Op) (w : World) (h : WOk w) (hc : inContractHist w ops = true)
+    (i : Nat) (P : List (List (Str × V))) (hp : (absW w).pending i = some P) :
+    ∃ rest, P = deliveredBy i ops (run w ops).2 ++ rest :=
+  delivered_prefix_all C04_wok_step ops w h hc i P hp
+
+-- non-vacuity: CIF 0 with a three-packet loop, CIF 1 beside it; the session is interleaved with calls on CIF 1, an update and a removal
+private def pre : List Op :=
+  [.cifNew, .mkBlock 0 (some (nm (a!"b"))), .mkLoop 0 none [nm (a!"_a"), nm (a!"_b")],
+   .addPkt 0 [(a!"_a", .na), (a!"_b", .unk)], .addPkt 0 [(a!"_a", .unk), (a!"_b", .na)], .addPkt 0 [(a!"_a", .na), (a!"_b", .na)],
+   .cifNew, .mkBlock 1 (some (nm (a!"c")))]
+private def sess : List Op :=
+  [.itNext 0, .setVal 1 (some (nm (a!"_x"))) (some .na), .itUpd 0 [(a!"_b", .na)], .itNext 0, .itRem 0, .itOpen 0, .blocks 1, .itNext 0]
+example : inContractHist {} (pre ++ .itOpen 0 :: sess) = true := by decide
+example : (step (run {} pre).1 (.itOpen 0)).2.rc = some CIF_OK := by decide
+example : sess.all (fun op => !op.endsIter (run {} pre).1.its.length) = true := by decide
+example : (deliveredBy 0 sess (run (step (run {} pre).1 (.itOpen 0)).1 sess).2).length = 3 := by decide
+example : (deliveredBy 0 (sess ++ [.itClose 0, .itNext 0, .getVal 0 (some (nm (a!"_a")))])
+    (run (step (run {} pre).1 (.itOpen 0)).1 (sess ++ [.itClose 0, .itNext 0, .getVal 0 (some (nm (a!"_a")))])).2).length = 3 := by decide
+example : WOk (run {} pre).1 := C04_wok_hist pre {} C04_wok_init (by decide)
+example := C06_session_in_history (run {} pre).1 (C04_wok_hist pre {} C04_wok_init (by decide)) 0 sess (by decide) (by decide) (by decide)
 
 end CifModel
